@@ -69,8 +69,8 @@ func init() {
 					// trims of s
 					for _, pt := range fl.Find(func(nd ast.Node) bool {
 						as, ok := nd.(*ast.AssignStmt)
-						if !ok || len(as.Lhs) != 1 || len(as.Rhs) != 1 || identObj(info, as.Lhs[0]) != bt.s {
-							return false
+						if !ok || len(as.Lhs) != 1 || len(as.Rhs) != 1 {
+							return false // (the trimmed text may go to another variable: markQuery := idList[:len(idList)-1])
 						}
 						sl, ok := ast.Unparen(as.Rhs[0]).(*ast.SliceExpr)
 						if !ok || identObj(info, sl.X) != bt.s || sl.High == nil {
@@ -129,6 +129,40 @@ func init() {
 								return op == token.NEQ || op == token.GTR
 							}
 							return op == token.EQL || op == token.LEQ
+						}
+						// switch form: the trim stands in the default clause of `switch <length> { case <constant>: … }`
+						inSwitchDefault := false
+						inspectParents(f.Body(), func(y ast.Node, ps []ast.Node) bool {
+							if y != trim {
+								return true
+							}
+							for i := len(ps) - 1; i >= 1; i-- {
+								cc, ok := ps[i].(*ast.CaseClause)
+								if !ok || cc.List != nil {
+									continue
+								}
+								var sw *ast.SwitchStmt
+								for j := i - 1; j >= 0 && sw == nil; j-- {
+									sw, _ = ps[j].(*ast.SwitchStmt)
+								}
+								if sw == nil || sw.Tag == nil || !isLen(sw.Tag) {
+									continue
+								}
+								for _, cl := range sw.Body.List {
+									if oc, ok := cl.(*ast.CaseClause); ok && oc.List != nil {
+										for _, e := range oc.List {
+											if _, isC := constInt(info, e); isC {
+												inSwitchDefault = true
+											}
+										}
+									}
+								}
+							}
+							return true
+						})
+						if inSwitchDefault {
+							r.Ok(rule, key, p.Pos(trim), "default clause of a switch over the length whose case is the bare prefix")
+							continue
 						}
 						g := p.Flow(f)
 						g.EdgeOK = func(b *cfg.Block, succ int) bool {
